@@ -43,10 +43,15 @@ NextRelease(older) ==
     IF p.pre # <<>> THEN core \o p.patch ELSE core \o IncD(p.patch)
 CanonWithBuild(older) == IF Valid(older) THEN Canonical(older) \o Parts(older).build ELSE <<>>
 
+\* the placeholder pseudo-version (no base, the zero time, the zero revision) and its recogniser
+ZeroPseudo(major) == Make(major, <<>>, S("00010101000000"), S("000000000000"))
+IsZeroPseudo(v) == v = ZeroPseudo(Major(v))
+
 \* expected observables of one generation
 ExpPseudo(major, older, t, rev) ==
     LET ts == Stamp(t) pv == Make(major, older, ts, rev) b == BaseOf(pv) IN
     [pv |-> pv, ispseudo |-> IsPseudo(pv), valid |-> Valid(pv),
+     iszero |-> IsZeroPseudo(pv), zero |-> ZeroPseudo(major),
      baseok |-> b.ok, base |-> b.base, ts |-> TimeOf(pv), rev |-> RevOf(pv),
      cmpbase |-> IF Valid(older) THEN Cmp(older, pv) ELSE 0,
      cmpnext |-> IF Valid(older) THEN Cmp(pv, NextRelease(older)) ELSE Cmp(pv, (IF major = <<>> THEN S("v0") ELSE major) \o S(".0.0"))]
